@@ -1015,6 +1015,48 @@ Proof.
   rewrite seq_stateless. induction ms as [|m r IH]; [reflexivity|].
   cbn [map oracle_seq]. rewrite IH, andb_true_r. unfold oracle_pattern, format_pattern. apply (M_oracle Hsrc).
 Qed.
+(* ---- time tokens: the text is the environment's rendering of the time stamps of the message AT HAND ----
+   [mtime m f] is what QDateTime::toString(f) / the process- and boot-relative seconds give for m's own time
+   stamps; a time token contributes exactly that (padded), whatever the object formatted before. *)
+Definition time_tok (f : qstr) (c : option mtype) (sp : option spec) : token := {| kind := KTime f; cond := c; tspec := sp |}.
+Lemma time_token_text (Hsrc : src_inband_marker = None) f c sp m :
+  format_model [time_tok f c sp] m = if cond_ok m (time_tok f c sp) then pad sp (mtime m f) else [].
+Proof.
+  unfold format_model. rewrite Hsrc. unfold format_oob, run_oob. cbn [fold_left].
+  destruct (cond_ok m (time_tok f c sp)); [|reflexivity].
+  unfold emit_oob, time_tok. cbn [kind tspec value_of grow fst snd app]. reflexivity.
+Qed.
+Lemma time_seq_text (Hsrc : src_inband_marker = None) p l ms f c sp : parse_pattern p = [time_tok f c sp] ->
+  format_seq p l ms = map (fun m => if cond_ok m (time_tok f c sp) then pad sp (mtime m f) else []) ms.
+Proof.
+  intros Hp. rewrite seq_stateless. apply map_ext. intros m. unfold format_pattern. rewrite Hp. apply (time_token_text Hsrc).
+Qed.
+Lemma time_seq_nth (Hsrc : src_inband_marker = None) p l h m t f c sp : parse_pattern p = [time_tok f c sp] ->
+  nth_error (format_seq p l (h ++ m :: t)) (length h) = Some (if cond_ok m (time_tok f c sp) then pad sp (mtime m f) else []).
+Proof.
+  intros Hp. rewrite seq_history_independent. unfold format_pattern. rewrite Hp, (time_token_text Hsrc). reflexivity.
+Qed.
+(* in any pattern: a time token that is active contributes pad (mtime m f) to the documented concatenation *)
+Lemma time_piece f c sp m : piece m (time_tok f c sp) = pad sp (mtime m f).
+Proof. reflexivity. Qed.
+(* a token that keeps its text while a key of the message is unchanged prints the PREVIOUS message's time for the
+   second of two messages that share the key and differ in the rendered time *)
+Lemma time_cached_refuted key f a b : key a = key b -> mtime a f <> mtime b f ->
+  fst (time_cached_call key f (snd (time_cached_call key f None a)) b) = mtime a f /\
+  fst (time_cached_call key f (snd (time_cached_call key f None a)) b) <> mtime b f.
+Proof.
+  intros Hk Hd. cbn [time_cached_call snd]. rewrite Hk, N.eqb_refl. cbn [fst]. split; [reflexivity|exact Hd].
+Qed.
+(* "%{time zzz}" and "[%{time zzz:0>6}]"; a message whose time renders as [stamp] *)
+Definition x_tz_pat : qstr := [37;123;116;105;109;101;32;122;122;122;125].
+Definition x_tzw_pat : qstr := [91;37;123;116;105;109;101;32;122;122;122;58;48;62;54;125;93].
+Definition x_zzz : qstr := [122;122;122].
+Definition msg_at (t : mtype) (sec : Z) (stamp : qstr) : msg :=
+  {| mt := t; text := [109]; mfile := []; mfunc := []; mfunc_clean := []; mcat := []; mline := sec;
+     mtime := fun _ => stamp; mtid := 0; mptr := 0; attrs := [] |}.
+Definition x_198 : qstr := [49;57;56].
+Definition x_238 : qstr := [50;51;56].
+
 (* the statement is not vacuous: without the two resets of format() the same object gives a different text
    for the same message the second time ("abcd%{a?,2}", attribute a missing: "abcd", then "cd") *)
 Definition x_l_pat : qstr := [97;98;99;100;37;123;97;63;44;50;125].
